@@ -245,6 +245,41 @@ func runPQ(c *Ctx) {
 	for i, s := range corpus {
 		runOne(fmt.Sprintf("corpus%d", i), s, nil)
 	}
+	// large queues: grow to several hundred / a few thousand items, drain far below that, grow again —
+	// the sizes at which a backing array is reallocated (or shrunk) are crossed in both directions
+	for li, nl := 0, c.Pick(3, 30); li < nl; li++ {
+		r := rng.Fork()
+		kind := "min"
+		if li%2 == 1 {
+			kind = "max"
+		}
+		n := 300 + r.Intn(c.Pick(1500, 6000))
+		script := []string{"new " + kind}
+		for i := 0; i < n; i++ {
+			script = append(script, fmt.Sprintf("push 0 %d", r.Intn(5000)))
+		}
+		script = append(script, "len 0")
+		for i := 0; i < n-n/9; i++ {
+			script = append(script, "pop 0")
+			if i%97 == 0 {
+				script = append(script, "len 0", "peek 0")
+			}
+			if i%11 == 0 {
+				script = append(script, fmt.Sprintf("push 0 %d", r.Intn(5000)))
+			}
+		}
+		script = append(script, "slice 0", "reverse 0", "len 1")
+		for i := 0; i < n/3; i++ {
+			script = append(script, fmt.Sprintf("push 0 %d", r.Intn(5000)))
+		}
+		for i := 0; i < n; i++ {
+			script = append(script, "pop 0")
+		}
+		script = append(script, "len 0", "pop 1", "pop 1", "len 1")
+		runOne(fmt.Sprintf("large%d", li), script, nil)
+		c.Nontrivial("large-queue")
+	}
+
 	for h := 0; h < nh; h++ {
 		runOne("rand", nil, rng.Fork())
 	}
